@@ -6,6 +6,8 @@ compared with f on the single objects of that position.  The single-object resul
 properties' checks; here the oracle is "the same library, one object at a time"."""
 from __future__ import annotations
 
+import os
+
 import itertools
 from fractions import Fraction
 
@@ -92,7 +94,7 @@ def same_value(a, b, tol, absval=False, modpi=False):
         return False
     if ka == "list":
         # as sets: a double point may be reported once or twice
-        return all(any(same_value(x, y, tol, absval) for y in b) for x in a) and all(any(same_value(x, y, tol, absval) for y in a) for x in b)
+        return all(any(same_value(x, y, tol, absval, modpi) for y in b) for x in a) and all(any(same_value(x, y, tol, absval, modpi) for y in a) for x in b)
     if ka == "obj":
         if a.tensor_shape != b.tensor_shape or a.free_indices != b.free_indices or family(a) != family(b):
             return False
@@ -223,13 +225,32 @@ def ops(rng):
     add("conic.intersect", lambda q, l: q.intersect(l), lambda: (circle_and_point()[0], line2()), tol=1e-6)
     add("crossratio2", lambda a, b, c, d: g.crossratio(a, b, c, d), lambda: collinear(2))
     add("crossratio3", lambda a, b, c, d: g.crossratio(a, b, c, d), lambda: collinear(3))
-    add("crossratio-from", lambda a, b, c, d, o: g.crossratio(a, b, c, d, o), lambda: (pt2(), pt2(), pt2(), pt2(), pt2()))
+    def fdet3(p, q, r):
+        p, q, r = [[Fraction(float(x)) for x in np.asarray(v.array)] for v in (p, q, r)]
+        return p[0] * (q[1] * r[2] - q[2] * r[1]) - p[1] * (q[0] * r[2] - q[2] * r[0]) + p[2] * (q[0] * r[1] - q[1] * r[0])
+
+    def cr_from():
+        # the cross ratio seen from o is [o,a,c][o,b,d] / ([o,a,d][o,b,c]); tuples where numerator AND denominator vanish exactly
+        # (e.g. o collinear with a, b, c) have no cross ratio: one object at a time the library returns a quotient of two rounding
+        # errors, in a 64-collection (exact Sarrus determinant) nan — neither is a value to compare
+        while True:
+            a, b, c, d, o = pt2(), pt2(), pt2(), pt2(), pt2()
+            if not (fdet3(o, a, c) * fdet3(o, b, d) == 0 and fdet3(o, a, d) * fdet3(o, b, c) == 0):
+                return a, b, c, d, o
+
+    def angle_pts(pt):
+        # the angle at a between the lines ab and ac needs b != a and c != a
+        while True:
+            a, b, c = pt(), pt(), pt()
+            if not a == b and not a == c:
+                return a, b, c
+    add("crossratio-from", lambda a, b, c, d, o: g.crossratio(a, b, c, d, o), cr_from)
     add("harmonic_set", lambda a, b, c: g.harmonic_set(a, b, c), lambda: collinear(2, 3))
     add("harmonic_set3", lambda a, b, c: g.harmonic_set(a, b, c), lambda: collinear(3, 3))
     # angles of unoriented lines are defined modulo pi (the sign of +-pi/2 is the sign of a floating-point zero); in space the
     # sign depends on the orientation of an SVD basis (KF-C03-1)
-    add("angle2", lambda a, b, c: g.angle(a, b, c), lambda: (pt2(), pt2(), pt2()), modpi=True)
-    add("angle3", lambda a, b, c: g.angle(a, b, c), lambda: (pt3(), pt3(), pt3()), absval=True, modpi=True)
+    add("angle2", lambda a, b, c: g.angle(a, b, c), lambda: angle_pts(pt2), modpi=True)
+    add("angle3", lambda a, b, c: g.angle(a, b, c), lambda: angle_pts(pt3), absval=True, modpi=True)
     add("angle-lines", lambda l, m: g.angle(l, m), lambda: (line2(), line2()), modpi=True)
     add("angle-planes", lambda e, f: g.angle(e, f), lambda: (plane3(), plane3()), absval=True, modpi=True)
     add("dist-pp2", lambda p, q: g.dist(p, q), lambda: (pt2(), pt2()))
@@ -369,7 +390,7 @@ def run(ctx, n, prefix="C04", only=None, patterns=None):
     for _ in range(n):
         name, f, gen, kw = table[rng.randrange(len(table))]
         pattern = rng.choice(patterns or SHAPES)
-        if patterns is None and rng.random() < 0.04:
+        if patterns is None and rng.random() < float(os.environ.get("VERIF_K_PROB", "0.04")):
             pattern = "K"            # 64 and more positions: the size-dependent branches of the numeric kernels (det / adjugate / inv)
         k = 1 if pattern == "1" else rng.choice([64, 70]) if pattern == "K" else rng.randint(2, 3)
         m = rng.randint(2, 3)
